@@ -31,6 +31,7 @@ func runC10(c *Ctx) {
 	ruleSetExclusivity(c)
 	ruleNoReadAfterHandler(c, x, scope)
 	ruleHandlerErrorKeepsConn(c, "R10.g")
+	ruleArgumentIndexSafety(c, "R10.h")
 	c.assume("surplus trailing arguments are ignored by most executors (the property speaks of lacking/ill-formed arguments)")
 }
 
@@ -1225,4 +1226,26 @@ func roleKey(p *Program, f *ssa.Function) string {
 		ts = append(ts, typeName(res.At(i).Type()))
 	}
 	return "helper->(" + strings.Join(ts, ",") + ")"
+}
+
+// ruleArgumentIndexSafety: R10.h — the argument helpers and executors index and slice the
+// client's strings (exclusive-bound marker, sub-ranges). An index that is not provably inside
+// the string panics on an empty or short argument: the barrier then drops the connection
+// without the error reply the property demands.
+func ruleArgumentIndexSafety(c *Ctx, rid string) {
+	c.rule(rid, "A8 over the executors and the argument helpers they call (redis/..., not the parser): every index and slice expression is proven in range by the inequality prover from the dominating tests (len(s) != 0, i < len(s), ...)")
+	execs, _ := c.P.executors()
+	var roots []*ssa.Function
+	for _, e := range execs {
+		roots = append(roots, e.Fn)
+	}
+	reach := c.P.repoReach(roots, func(f *ssa.Function) bool { return inFramework(f) && fnPkgPath(f) == pkgRedis })
+	var scope []*ssa.Function
+	for f := range reach {
+		if f.Blocks != nil && f.Synthetic == "" {
+			scope = append(scope, f)
+		}
+	}
+	sort.Slice(scope, func(i, j int) bool { return c.P.key(scope[i]) < c.P.key(scope[j]) })
+	rulePanicSitesIn(c, rid, scope, "argument-index-sites", 3)
 }
